@@ -665,6 +665,7 @@ func persistMain(args mon.Args) {
 	run.Add("saves_over_an_existing_file", histN)
 	if args.Replay == "" {
 		minimalRedefinitions(run, dir, snap)
+		largeFiles(run, dir, snap)
 	}
 
 	// real-crash confirmation: a child dumping in a loop is SIGKILLed and the leftover file is loaded
@@ -727,7 +728,7 @@ func persistMain(args mon.Args) {
 	if args.Replay == "" {
 		crossProcessHistories(run, snap, "persist:xproc", run.Pick(60, 1000))
 	}
-	run.SetRule("caches built by decoding generated announcements (1..40 templates quick, ..2000 thorough; plain/options, IPv4/mapped/IPv6 exporters; ipfix and netflow v9). Faults enumerated: EVERY prefix length of the dump file (every crash point of truncate-then-write; stride above 64 KiB), real SIGKILLs of a process dumping in a loop, ~70 single structural edits of the valid document (shards dropped/null/wrong type, Templates null/[]/{}, Cache null/[]/31/33 entries, ShardNo absent/0/31/33/-1/'32'/2^40, entry-level edits, duplicated members, whole-document forms), absent file, seeded byte-level flips/inserts/deletes. Oracles per load: GetCache does not panic; the loaded cache re-dumped holds only entries equal to saved ones (prefix/structural faults); every saved key decodes as before or is unknown; announce+decode works on all 32 shards (64 probe keys, two per shard, chosen by harness-side FNV) and Dump works afterwards; the unmodified file round-trips every key; save histories on one file (larger→smaller, smaller→larger, equal, several steps) must load back as exactly the cache saved last; three-life histories on one file in which the second life re-announces some templates with a minimal difference (one field's enterprise number, element id or length, two fields swapped, the scope split moved, or none) and saves, and the third must decode as the second did; 60-1000 exporter histories are cut at 1-3 points and every part runs in a process of its own on the cache file its predecessor saved (a real restart), with records and unknown-template reports predicted as for an uninterrupted history; 8 degenerate-entry edits applied to every entry (all lengths 0 or 65535, specifiers []/null/missing, counts 0/65535, empty template) are probed in a child process under a 10 s CPU limit: GetCache must not panic and decoding every key's data must return without a panic. distinct = (kind, position/edit)")
+	run.SetRule("caches built by decoding generated announcements (1..40 templates quick, ..2000 thorough; plain/options, IPv4/mapped/IPv6 exporters; ipfix and netflow v9). Faults enumerated: EVERY prefix length of the dump file (every crash point of truncate-then-write; stride above 64 KiB), real SIGKILLs of a process dumping in a loop, ~70 single structural edits of the valid document (shards dropped/null/wrong type, Templates null/[]/{}, Cache null/[]/31/33 entries, ShardNo absent/0/31/33/-1/'32'/2^40, entry-level edits, duplicated members, whole-document forms), absent file, seeded byte-level flips/inserts/deletes. Oracles per load: GetCache does not panic; the loaded cache re-dumped holds only entries equal to saved ones (prefix/structural faults); every saved key decodes as before or is unknown; announce+decode works on all 32 shards (64 probe keys, two per shard, chosen by harness-side FNV) and Dump works afterwards; the unmodified file round-trips every key; save histories on one file (larger→smaller, smaller→larger, equal, several steps) must load back as exactly the cache saved last; three-life histories on one file in which the second life re-announces some templates with a minimal difference (one field's enterprise number, element id or length, two fields swapped, the scope split moved, or none) and saves, and the third must decode as the second did; caches grown until their file passes 9 and 18 MiB (thorough: 36 and 72) round-trip with a sample of 300 keys; 60-1000 exporter histories are cut at 1-3 points and every part runs in a process of its own on the cache file its predecessor saved (a real restart), with records and unknown-template reports predicted as for an uninterrupted history; 8 degenerate-entry edits applied to every entry (all lengths 0 or 65535, specifiers []/null/missing, counts 0/65535, empty template) are probed in a child process under a 10 s CPU limit: GetCache must not panic and decoding every key's data must return without a panic. distinct = (kind, position/edit)")
 	run.Assume("a byte flip inside a digit legitimately yields a different template: byte-level corruptions are judged for 'no crash, still usable' only")
 	run.Finish()
 }
@@ -1069,4 +1070,85 @@ func normUnknown(et string) string {
 		return "element-missing"
 	}
 	return "error"
+}
+
+// largeFiles: a collector that serves thousands of exporters saves a cache file of many megabytes. Caches
+// are grown until their file passes 9 and 18 MiB (thorough: 36 and 72 as well - just above the round
+// numbers a size limit would be set to), saved, loaded, and a sample of 300 keys must decode as before.
+func largeFiles(run *mon.Run, dir string, snap []wire.Elem) {
+	targets := []int{9 << 20, 18 << 20}
+	if run.Thorough() {
+		targets = append(targets, 36<<20, 72<<20)
+	}
+	for pi, proto := range []string{"ipfix", "nf9"} {
+		g := mon.NewRNG(run.Seed, "persist-large", pi)
+		bc := &builtCache{proto: proto, api: newCacheAPI(proto, "")}
+		o := wire.GenOpts{Elems: snap, Varlen: proto == "ipfix", Reduced: true, Options: true, MaxFields: 30, MaxStrLen: 10}
+		if proto == "nf9" {
+			o.OnlyPEN0, o.Varlen = true, false
+		}
+		f := filepath.Join(dir, "large-"+proto+".json")
+		exp := 0
+		for _, target := range targets {
+			var size int64
+			for size < int64(target) {
+				// 2000 more templates: 125 exporters x 16 ids
+				for e := 0; e < 125; e++ {
+					exp++
+					addr := []byte{10, byte(exp >> 16), byte(exp >> 8), byte(exp)}
+					for id := 0; id < 16; id++ {
+						var t *wire.Template
+						for {
+							t = wire.GenTemplate(g, uint16(256+id), o)
+							if len(t.All()) >= 12 {
+								break
+							}
+						}
+						k := wire.SetTemplate
+						if t.Options {
+							k = wire.SetOptTemplate
+						}
+						ts := wire.Set{Kind: k, Templates: []*wire.Template{t}}
+						if proto == "nf9" {
+							ts.Pad = (4 - wire.SetLen(&ts)%4) % 4
+						}
+						ann, _ := wire.EncodeFlow(proto, []uint32{1, 2, 3, 4}, []wire.Set{ts})
+						decodeRecs(bc.api, addr, ann)
+						if id == 0 && e%4 == 0 { // keep a sample of keys with data
+							ds := wire.GenDataSet(g, t, 1, o, 0)
+							ds.Pad = 0
+							if proto == "nf9" && wire.SetLen(&ds)%4 != 0 {
+								continue
+							}
+							dat, _ := wire.EncodeFlow(proto, []uint32{5, 6, 7, 8}, []wire.Set{ds})
+							bc.keys = append(bc.keys, pkey{addr, t, ann, dat})
+						}
+					}
+				}
+				if err := bc.api.dump(f); err != nil {
+					run.Violation("persist:dump-error", "Dump of a large cache failed: "+err.Error(), persistCase{Proto: proto, Kind: "large-file", Seed: run.Seed})
+					return
+				}
+				fi, _ := os.Stat(f)
+				size = fi.Size()
+			}
+			run.Eval(1)
+			run.Distinct(fmt.Sprintf("large-file|%s|%dMiB", proto, target>>20))
+			run.Add("large_cache_files_round_tripped", 1)
+			api := newCacheAPI(proto, f)
+			step := len(bc.keys)/300 + 1
+			for i := 0; i < len(bc.keys); i += step {
+				k := bc.keys[i]
+				b1, _, _ := decodeRecs(bc.api, k.Addr, k.Data)
+				b2, et, pn := decodeRecs(api, k.Addr, k.Data)
+				if pn != "" || fmt.Sprint(b1) != fmt.Sprint(b2) || len(b1) == 0 {
+					run.Violation("persist:round-trip:large-file", fmt.Sprintf("a cache of %d exporters x 16 templates was saved (%d octets) and loaded: data of exporter %x template %d decodes to %v (%s %s), before saving to %v", exp, size, k.Addr, k.Tpl.ID, clip(fmt.Sprint(b2), 200), et, pn, clip(fmt.Sprint(b1), 200)),
+						persistCase{Proto: proto, Kind: "large-file", Detail: fmt.Sprintf("file of %d octets (not stored: regenerate from seed)", size), Seed: run.Seed, NTpl: exp * 16})
+					os.Remove(f)
+					return
+				}
+			}
+		}
+		os.Remove(f)
+	}
 }
